@@ -1459,3 +1459,65 @@ def clausedb_history(cases):
             r["site"] = info["site"]
         out.append(r)
     return {"results": out}
+
+
+# ------------------------------------------------------------------ C28 exported functions under every call mode
+def export_modes(uid=0):
+    """problog_export'ed functions with several outputs (det and nondet), called with every combination of free /
+    correctly bound / wrongly bound output arguments; returns, per call, the answers ProbLog reports."""
+    import itertools
+    import os
+    from problog.program import PrologString
+    from problog.engine import DefaultEngine
+    from problog.logic import Term, Constant
+    from problog.errors import ProbLogError
+    d = os.path.join(os.path.dirname(os.path.dirname(os.path.abspath(__file__))), "out", "c28mod")
+    os.makedirs(d, exist_ok=True)
+    fn = os.path.join(d, "modes_%d_%d.py" % (os.getpid(), uid))
+    src = '''from problog.extern import problog_export, problog_export_nondet
+
+@problog_export('+int', '+int', '-int', '-int')
+def sum_prod(a, b):
+    return a + b, a * b
+
+@problog_export('+int', '-int', '-int', '-int')
+def three(a):
+    return a + 1, a * 2, a - 1
+
+@problog_export('+int', '-int')
+def succ1(a):
+    return a + 1
+
+@problog_export_nondet('+int', '-int', '-int')
+def splits(n):
+    return [(i, n - i) for i in range(n + 1)]
+'''
+    with open(fn, "w") as f:
+        f.write(src)
+    out = []
+    try:
+        eng = DefaultEngine()
+        db = eng.prepare(PrologString(":- use_module('%s').\n" % fn))
+        funcs = [("sum_prod", [(2, 3), (0, 5), (4, 4)], lambda a, b: [(a + b, a * b)]),
+                 ("three", [(3,), (0,)], lambda a: [(a + 1, a * 2, a - 1)]),
+                 ("succ1", [(1,), (7,)], lambda a: [(a + 1,)]),
+                 ("splits", [(2,), (3,)], lambda n: [(i, n - i) for i in range(n + 1)])]
+        for name, inputs, py in funcs:
+            for inp in inputs:
+                results = py(*inp)
+                nout = len(results[0])
+                cand = [sorted({r[k] for r in results} | {results[0][k] + 100}) for k in range(nout)]
+                for mode in itertools.product(*[[None] + c for c in cand]):
+                    args = [Constant(x) for x in inp] + [None if m is None else Constant(m) for m in mode]
+                    rec = {"f": name, "in": list(inp), "bound": [m for m in mode], "py": [list(r) for r in results]}
+                    try:
+                        res = eng.query(db, Term(name, *args))
+                        rec["ans"] = [[int(x) if isinstance(x, Constant) and isinstance(x.functor, int) else str(x) for x in a[len(inp):]] for a in res]
+                    except ProbLogError as e:
+                        rec["err"] = type(e).__name__
+                    except Exception as e:
+                        rec["crash"] = "%s: %s" % (type(e).__name__, str(e)[:100])
+                    out.append(rec)
+    finally:
+        os.unlink(fn)
+    return {"calls": out}
